@@ -266,6 +266,16 @@ def run_unit(name, repo, workdir, rlimit=DEFAULT_RLIMIT, seed=0, vacuity=True):
         res = _run_generated(name, g, gv, workdir, rlimit, seed)
     out.update(res['out'])
     out['isolated'] = dict(isolate)
+    # bounded stand-ins (never counted as proof) for isolated functions that have a harness
+    out['bounded'] = {}
+    if isolate:
+        from . import bounded
+        for spec in unit.ITEMS:
+            if not spec or not spec.get('bounded'):
+                continue
+            iid = spec.get('id') or weave._default_id(spec['path'])
+            if iid in isolate:
+                out['bounded'][iid] = bounded.run(iid, spec, repo, os.path.join(workdir, name))
     return out
 
 
